@@ -198,6 +198,15 @@ Theorem C10_sym_dup_guard_refuted :
 Proof. exact sym_dup_refuted. Qed.
 Print Assumptions C10_sym_dup_guard_refuted.
 
+(* ... and the type guard: an ST_UNKNOWN ('?') symbol is written but not read back *)
+Theorem C10_sym_unknown_type_refuted :
+  match save_sym [mkSym 16 4 63 [117]; mkSym 32 4 84 [118]] [47;120] [] with
+  | Some f => load_sym dem_plain f = [mkSym 32 4 84 [118]]
+  | None => False
+  end.
+Proof. exact sym_unknown_type_refuted. Qed.
+Print Assumptions C10_sym_unknown_type_refuted.
+
 (* ---------------------------------------------------------------- sid-*.map files (partial) *)
 (* record_proc_maps merges the segments of one file into one map; merging again (what
    read_session_map does with consecutive lines of one path) changes nothing.  The text layer of
